@@ -1,7 +1,11 @@
 /-
   Line handler for C12: histories of chaining calls (same step grammar as C08), conversions and parses.
 
-    c12 <Base> <bag> <vals> <len> <cap> | <recv> <class> … | <i> conv <optionSet> <def> <metas> <bag> <vals> 0 ToJSONSchema@T | <i> parse 0 0 0 <bag> <vals> 0 Parse@T | …
+    c12 <Base> <bag> <vals> <len> <cap> | <recv> <class> … | <i> conv <optionSet> <def> <metas> <bag> <vals> <W> <K> ToJSONSchema@T | <i> parse 0 0 0 <bag> <vals> 0 Parse@T | …
+
+  <K>: `K-`, or `K<internals.Type>/<key>=<value>,…` — the ANNOTATED Bag of the converted schema (what `annotatedInternals` hands
+  to the converter) in some non-sorted enumeration order; values `n<gotype>:<%g>` | `s<string>` | `l<string>+…` | `o<gotype>`
+  (strings in an injective token encoding that is never decoded: the model only compares, orders and moves them).
 
   <def>: `0`, or the definition-held member list of the converted schema: `L<A|C><graph>` (literal: what `Values()` hands out,
   A = the definition's own slice, C = a copy; graph `[1,[2,3],1]`, scalars are value ids, 0 = nil) or `E<A|C>[ids]` (enum:
@@ -9,13 +13,71 @@
 
   conv step output:   verdict `<doc equals the isolated conversion 0|1>:<changed,…>`, structure `g<idx,…>` (live schemas whose Bag
   content was rewritten by the conversion) `m<members the document shows>` (with a <def>: `convLiteral` run on the definition
-  allocated in the history's store) `r<registry entries>`.  parse step: verdict `1:<changed,…>`, structure `-`.
+  allocated in the history's store) `r<registry entries>` `!k…` (the keywords `ConvDoc.docOf` derives from <K> through the
+  regenerated `applyBag` row: `k=<Field>=<value>,…` every bag-settable keyword of the node, `k~…` only the fields `applyBag`
+  assigns, `k-` no prediction).  The store effect of a conv step is `ConvDoc.runTrace` over the regenerated `writeSites`
+  (`canonicalTrace`: every site once; a site whose origin is not the conversion's own memory rewrites the live schema's cells).
+  parse step: verdict `1:<changed,…>`, structure `-` (Parse does not write the store: `Proofs/C12Doc.lean` states what the
+  verdict is a function of).
 -/
 import Gozod.Drv.C08
 import Gozod.Model.DefData
 import Gozod.Model.ConvOpts
+import Gozod.Model.ConvDoc
 namespace Gozod.Drv.C12
 open Gozod.Store Gozod.Drv.C08 Gozod.DefData Gozod.ConvOpts
+
+/-! the document-level tie: `K` token → `ConvDoc.Bag`, `ConvDoc.Pred` → `k` structure part -/
+
+def parseBV (s : String) : Option ConvDoc.BV :=
+  let body := (s.drop 1).toString
+  if s.startsWith "n" then
+    match body.splitOn ":" with
+    | [ty, r] => some (.num ty r)
+    | _ => none
+  else if s.startsWith "s" then some (.str body)
+  else if s.startsWith "l" then some (.strs (if body == "" then [] else body.splitOn "+"))
+  else if s.startsWith "o" then some (.other body)
+  else none
+
+def parseEntryKV (s : String) : Option (String × ConvDoc.BV) :=
+  match s.splitOn "=" with
+  | [k, v] => (parseBV v).map (fun b => (k, b))
+  | _ => none
+
+/-- `K<type>/<entries>` → (type, bag); `K-` → none -/
+def parseK (s : String) : Option (String × ConvDoc.Bag) :=
+  if s == "K-" || !s.startsWith "K" then none else
+  match ((s.drop 1).toString).splitOn "/" with
+  | [ty, es] => if es == "" then some (ty, []) else ((es.splitOn ",").mapM parseEntryKV).map (fun b => (ty, b))
+  | _ => none
+
+def showKV : ConvDoc.KV → String
+  | .num r => "n" ++ r
+  | .str s => "s" ++ s
+
+def insertKw (p : String × String) : List (String × String) → List (String × String)
+  | [] => [p]
+  | q :: r => if p.1 ≤ q.1 then p :: q :: r else q :: insertKw p r
+
+/-- the fields of a node sorted by name; `only = some fs`: restricted to `fs` (and without Pattern / AllOf) -/
+def showDoc (d : ConvDoc.Doc) (only : Option (List String)) : String :=
+  let base : List (String × String) := d.kw.map (fun p => (p.1, showKV p.2))
+  let withPats : List (String × String) := match only with
+    | some fs => base.filter (fun p => fs.contains p.1)
+    | none =>
+      base ++ (match d.pattern with | some p => [("Pattern", "s" ++ p)] | none => [])
+           ++ (match d.allOf with | some a => [("AllOf", "l" ++ "+".intercalate a)] | none => [])
+  ",".intercalate ((withPats.foldl (fun acc p => insertKw p acc) []).map (fun (p : String × String) => p.1 ++ "=" ++ p.2))
+
+def kPart (ktok : String) : String :=
+  match parseK ktok with
+  | none => "k-"
+  | some (ty, b) =>
+    match ConvDoc.docOf ty b with
+    | .full d => "k=" ++ showDoc d none
+    | .part d => "k~" ++ showDoc d (some (ConvDoc.written ConvDoc.applyBagRow b))
+    | .nothing => "k-"
 
 /-! registry entries and registry-writing checks as the harness codes them:
     entry `-` | `<id>.<title>.<descr>.<e1>+<e2>+…`; check `D<descr>` | `M<id>.<title>.<descr>.<examples>`;
@@ -144,7 +206,7 @@ def stepModel12 (cfg : Cfg) (st : St) (toks : List String) : Option St :=
     -- ToJSONSchema(registry): purity is claimed (no live schema changes), determinism is not (`c12_ranges_partial` excludes the
     -- `Registry.Range` loop: `registry_range_order_sensitive`): verdict `r` = "the document may differ"
     some { st with verdicts := st.verdicts ++ ["r:"], structs := st.structs ++ ["g"] }
-  | [recv, "conv", opt, dtok, metas, _, _, wtok, _] => do
+  | [recv, "conv", opt, dtok, metas, _, _, wtok, ktok, _] => do
     let (mutc, witems) ← parseW wtok
     let i ← recv.toNat?
     let s ← st.live[i]?
@@ -152,7 +214,11 @@ def stepModel12 (cfg : Cfg) (st : St) (toks : List String) : Option St :=
     -- the definition's member list is allocated in the history's store and read by the converter there: every live
     -- schema's observation is compared before (st.σ) and after (σ') both the reading and the Bag part of the conversion
     let (σd, mpart) := defRead st.σ dtok
-    let (σ', s', _) := convert cfg σd s
+    -- the store effect: the fold of the regenerated table's write sites (`ConvDoc.runTrace`); the Bag-level `convert` of
+    -- Model/Store.lean (purity by definition under `convScratch`) is no longer what the prediction goes through
+    let _ := cfg
+    let σ' := ConvDoc.runTrace Gozod.Gen.ConvAccess.writeSites σd s (ConvDoc.canonicalTrace Gozod.Gen.ConvAccess.writeSites σd s)
+    let s' := s
     let before := st.live.map (obs st.σ.heap)
     let after := st.live.map (obs σ'.heap)
     let noBag (o : Obs) : Obs := { o with bag := none }
@@ -188,7 +254,7 @@ def stepModel12 (cfg : Cfg) (st : St) (toks : List String) : Option St :=
                 && !(witems.any (fun it => it.shown && editedBefore mutc it && !(opt == "14" && it.handed)))
     let r := if posts.isEmpty then "" else "r" ++ ",".intercalate (posts.map (fun p => s!"{p.1}={showGMeta p.2.2}"))
     let w := if wposts.isEmpty then "" else "w" ++ ",".intercalate (wposts.map (fun p => s!"{p.1}={showGMeta p.2.2}"))
-    let g := s!"g{idxList bagChanged}{mpart}{r}{w}"
+    let g := s!"g{idxList bagChanged}{mpart}{r}{w}!{kPart ktok}"
     some { st with σ := σ', verdicts := st.verdicts ++ [s!"{if same then 1 else 0}:{idxList changed}"],
                    structs := st.structs ++ [g] }
   | [_recv, "parse", _, _, _, _, _, _, _] =>
